@@ -339,6 +339,97 @@ fn in_flight_routing(i: usize) {
 proof! { #[kani::unwind(10)] fn c03_q_in_flight_routing_instrument0() { in_flight_routing(0) } }
 proof! { #[kani::unwind(10)] fn c03_q_in_flight_routing_instrument1() { in_flight_routing(1) } }
 
+// ---- trading-state gating of the real Engine::process ---------------------------------------------------------
+// Strategy that counts how often the engine asks it for algo orders / notifies it of disabled trading, and never
+// issues a request (the batch send of actual requests does not fit, see the module comment).
+static mut ALGO_CALLS: u8 = 0;
+static mut DISABLED_CALLS: u8 = 0;
+struct Probe;
+type GatedState = crate::world::State;
+impl AlgoStrategy for Probe {
+    type State = GatedState;
+    fn generate_algo_orders(&self, _: &GatedState) -> (impl IntoIterator<Item = OrderRequestCancel>, impl IntoIterator<Item = OrderRequestOpen>) {
+        unsafe { ALGO_CALLS += 1; }
+        (core::iter::empty(), core::iter::empty())
+    }
+}
+impl ClosePositionsStrategy for Probe {
+    type State = GatedState;
+    fn close_positions_requests<'a>(&'a self, _: &'a GatedState, _: &'a InstrumentFilter) -> (impl IntoIterator<Item = OrderRequestCancel> + 'a, impl IntoIterator<Item = OrderRequestOpen> + 'a)
+    where ExchangeIndex: 'a, InstrumentIndex: 'a {
+        (core::iter::empty(), core::iter::empty())
+    }
+}
+impl<Clock, State, Txs, Risk> barter::strategy::on_disconnect::OnDisconnectStrategy<Clock, State, Txs, Risk> for Probe {
+    type OnDisconnect = ();
+    fn on_disconnect(_: &mut Engine<Clock, State, Txs, Self, Risk>, _: barter_instrument::exchange::ExchangeId) {}
+}
+impl<Clock, State, Txs, Risk> barter::strategy::on_trading_disabled::OnTradingDisabled<Clock, State, Txs, Risk> for Probe {
+    type OnTradingDisabled = ();
+    fn on_trading_disabled(_: &mut Engine<Clock, State, Txs, Self, Risk>) {
+        unsafe { DISABLED_CALLS += 1; }
+    }
+}
+
+/// event kinds: 0 trading-state update, 1 market item (public trade), 2 shutdown
+fn gating(event_kind: u8, before: barter::engine::state::trading::TradingState, update: barter::engine::state::trading::TradingState) {
+    use crate::world::*;
+    use barter::{EngineEvent, engine::{Processor, clock::LiveClock, state::{instrument::data::{DefaultInstrumentMarketData, InstrumentDataState}, order::Orders, position::PositionManager, trading::TradingState}}, risk::DefaultRiskManager};
+    use barter_data::{event::{DataKind, MarketEvent}, streams::consumer::MarketStreamEvent, subscription::trade::PublicTrade};
+    use barter_instrument::exchange::ExchangeId;
+    unsafe { ALGO_CALLS = 0; DISABLED_CALLS = 0; }
+    log_reset();
+    let istate = instrument_state(0, instrument(0, "btc_usdt", 0, 1), PositionManager::default(), Orders::default(), DefaultInstrumentMarketData::default());
+    let state = engine_state(before, instrument_states_1(("btc_usdt", istate)));
+    let mut engine = Engine {
+        clock: LiveClock,
+        meta: EngineMeta { time_start: time_at(0), sequence: Sequence(0) },
+        state,
+        execution_txs: Links([RecordingTx { exchange: 0, link: Link::Healthy }, RecordingTx { exchange: 1, link: Link::Healthy }]),
+        strategy: Probe,
+        risk: DefaultRiskManager::<GatedState>::default(),
+    };
+    let price = any_u8_in(1, 3);
+    let event: EngineEvent<DataKind> = match event_kind {
+        0 => EngineEvent::TradingStateUpdate(update),
+        1 => EngineEvent::Market(MarketStreamEvent::Item(MarketEvent {
+            time_exchange: time_at(2), time_received: time_at(2), exchange: ExchangeId::BinanceSpot, instrument: InstrumentIndex(0),
+            kind: DataKind::Trade(PublicTrade { id: String::new(), price: price as f64, amount: 1.0, side: Side::Buy }),
+        })),
+        _ => EngineEvent::Shutdown(barter::shutdown::Shutdown),
+    };
+    let audit = engine.process(event);
+    let after = engine.state.trading;
+    let (algo, disabled) = unsafe { (ALGO_CALLS, DISABLED_CALLS) };
+    match event_kind {
+        0 => {
+            assert!(after == update, "C03: trading state not updated");
+            // re-enabling resumes generation on that very event; while disabled nothing is generated
+            assert!(algo == (after == TradingState::Enabled) as u8, "C03: strategy asked for orders exactly when trading is enabled after the event");
+            assert!(disabled == (before == TradingState::Enabled && update == TradingState::Disabled) as u8, "C03: on-trading-disabled exactly on the transition to disabled");
+        }
+        1 => {
+            assert!(after == before, "C03: a market event changed the trading state");
+            assert!(algo == (before == TradingState::Enabled) as u8, "C03: strategy asked for orders although trading is disabled (or not asked although enabled)");
+            // the engine keeps updating its state while trading is disabled
+            assert!(engine.state.instruments.instrument_index(&InstrumentIndex(0)).data.price() == Some(Decimal::from(price)), "C03: state not updated while trading is disabled");
+        }
+        _ => {
+            assert!(algo == 0 && disabled == 0 && after == before, "C03: shutdown must not generate orders");
+        }
+    }
+    assert!(delivered_total() == 0, "C03: a request was delivered although the strategy generated none");
+    kani::cover!(true, "reached");
+    core::mem::forget((audit, engine));
+}
+// Only the cells that end with trading DISABLED fit: with trading enabled `process` calls the batch action
+// `generate_algo_orders`, which does not fit even for a strategy that generates nothing (no result in 30 min).
+// (a market event processed while disabled - state updated, nothing generated - did not finish in 25 min through Engine::process;
+//  the state update itself is checked at the EngineState entry point under C15)
+proof! { #[kani::unwind(12)] fn c03_q_gating_disable_while_enabled() { use barter::engine::state::trading::TradingState::*; gating(0, Enabled, Disabled) } }
+proof! { #[kani::unwind(12)] fn c03_t_gating_disable_while_disabled() { use barter::engine::state::trading::TradingState::*; gating(0, Disabled, Disabled) } }
+proof! { #[kani::unwind(12)] fn c03_t_gating_shutdown_enabled() { use barter::engine::state::trading::TradingState::*; gating(2, Enabled, Enabled) } }
+
 proof! {
     #[kani::unwind(10)]
     fn c03_twin_must_fail() {
